@@ -1044,6 +1044,7 @@ class Context:
 
         constructor = JSCallableObject(constructor_fn)
         constructor._name = name
+        constructor.set("BYTES_PER_ELEMENT", array_class._element_size)
         return constructor
 
     def _create_arraybuffer_constructor(self) -> JSCallableObject:
